@@ -3,6 +3,7 @@ registration part: registration rounds, preparation rounds, forwarding of REST r
 import json
 import os
 import random
+from concurrent.futures import ThreadPoolExecutor
 import vf
 
 PID = "C11"
@@ -14,10 +15,13 @@ TRACE = ("Trace_BlockRelay_C11", "Trace_BlockRelay_C11.cfg")
 def driver(scenarios, tag):
     # bounded wait for the preparation goroutine to have called every node (only ever expires when a
     # node is not called at all); longer on the confirming re-runs
-    wd = 1500
+    # lat: how long a "slow" relay / node fake stays in flight watching its context (an ordering device: on a
+    # tree where the property holds no context is cancelled, whatever the period)
+    wd, lat = 1500, 8
     if tag.startswith("confirm"):
-        wd = 8000
-    return vf.run_driver(PID, PKG, TEST, scenarios, tag, env={"VERIF_WATCHDOG_MS": wd}, timeout=1500)
+        wd, lat = 8000, 40
+    return vf.run_driver(PID, PKG, TEST, scenarios, tag, env={"VERIF_WATCHDOG_MS": wd, "VERIF_C11_LAT_MS": lat},
+                         timeout=1500)
 
 
 def _bad_docs(s):
@@ -38,6 +42,10 @@ def sig_of(s):
                 unresolvable_round = True
             if st.get("signfail") or st.get("relayfail") or st.get("nodefail"):
                 failures = True
+        elif st["ev"] == "Fwd" and st.get("relayfail"):
+            failures = True
+        elif st["ev"] == "Prep" and any(no[1] != "ok" for no in st.get("nodeout", [])):
+            failures = True
     return {"round_with_unresolvable_and_resolvable_validator": unresolvable_round,
             "has_failures": failures, "kinds": sorted({st["ev"] for st in s["steps"][1:]})}
 
@@ -45,8 +53,8 @@ def sig_of(s):
 def nontrivial(s, rows):
     # the antecedent: a round in which registrations (or preparations) were really submitted, together
     # with a failure, an unresolvable validator, or an earlier round (reuse / change of content)
-    submits = [r for r in rows if r.get("ev") in ("RelaySubmit", "NodeSubmit") and r.get("regs")]
-    preps = [r for r in rows if r.get("ev") == "PrepSubmit" and r.get("preps")]
+    submits = [r for r in rows if r.get("ev") in ("RelayStart", "NodeStart") and r.get("regs")]
+    preps = [r for r in rows if r.get("ev") == "PrepCall" and r.get("preps")]
     if not submits and not preps:
         return False
     sg = sig_of(s)
@@ -72,17 +80,42 @@ def scenarios(tier):
     return [{"sc": i + 1, "steps": h} for i, h in enumerate(hs)]
 
 
+SHARED_CANCEL = [("relays", "FailureIsolated"), ("nodes", "FailureIsolated"), ("prep", "PreparationIsolated"),
+                 ("fwd", "ForwardedAll")]
+
+
+def design_checks(v, tier):
+    # long histories with a coarse fan-out (whole payloads, calls succeed) ...
+    v.add_mc(vf.tlc_exhaustive(PID, "BlockRelay", "MC_BlockRelay_C11.cfg"))
+    # ... and the fan-out in full detail (overlapping calls, partial deliveries, every outcome) on short ones
+    v.add_mc(vf.tlc_exhaustive(PID, "BlockRelay", "MC_BlockRelay_C11_fanout.cfg"))
+    if tier == "thorough":
+        v.add_mc(vf.tlc_exhaustive(PID, "BlockRelay", "MC_BlockRelay_C11_fanout3.cfg", timeout=1500))
+        v.add_mc(vf.tlc_exhaustive(PID, "BlockRelay", "MC_BlockRelay_C11_big.cfg", timeout=1500))
+        v.add_mc(vf.tlc_exhaustive(PID, "BlockRelay", "MC_BlockRelay_C11_big2.cfg", timeout=1500))
+    # the model must keep its discriminating power: a fan-out whose calls share one context that the first
+    # failing call cancels (errgroup.WithContext) violates the isolation invariants
+    with ThreadPoolExecutor(max_workers=len(SHARED_CANCEL)) as ex:
+        rs = list(ex.map(lambda a: vf.tlc(PID, "mc-sharedcancel-" + a[0], "BlockRelay",
+                                          "MC_BlockRelay_C11_sharedcancel_%s.cfg" % a[0], workers=2, timeout=600),
+                         SHARED_CANCEL))
+    for (name, inv), r in zip(SHARED_CANCEL, rs):
+        if not (r["kind"] == "invariant" and r["violated"] == inv):
+            raise vf.Broken("a %s fan-out with a shared context cancelled by the first failure no longer violates %s "
+                            "in the model (%s %s)" % (name, inv, r["kind"], r["violated"]))
+    vf.log("model self-check: shared-cancel fan-outs violate FailureIsolated / PreparationIsolated / ForwardedAll (as they must)")
+
+
 def run(tier):
     v = vf.Verdict(PID, tier)
     v.assumptions = [
         "rounds, fetches and REST registrations do not overlap (the registration part is sequential; overlap with fetches is C12)",
+        "relay and beacon-node fakes honour the call's context like an HTTP client; how the calls of one fan-out overlap is "
+        "scripted per round (all at once / failing ones first, healthy ones in flight meanwhile / relay payload in batches)",
         "configuration source, accounts, relays, beacon nodes and scheduler are scripted fakes at the services' interfaces; "
         "the signer is the real standard signer with BLS keys (every 4th scenario in quick, all in thorough) or a hashing one",
     ]
-    v.add_mc(vf.tlc_exhaustive(PID, "BlockRelay", "MC_BlockRelay_C11.cfg"))
-    if tier == "thorough":
-        v.add_mc(vf.tlc_exhaustive(PID, "BlockRelay", "MC_BlockRelay_C11_big.cfg", timeout=1500))
-        v.add_mc(vf.tlc_exhaustive(PID, "BlockRelay", "MC_BlockRelay_C11_big2.cfg", timeout=1500))
+    design_checks(v, tier)
     sc = scenarios(tier)
     vf.conformance(v, sc, driver, TRACE[0], TRACE[1], sig_of, nontrivial, tlc_timeout=1500, chunk=150)
     v.coverage["rule"] = ("input sequences defined by Scen_BlockRelay_C11.tla: every failure combination of one round per "
